@@ -83,6 +83,35 @@ func c16Long() []string {
 	return out
 }
 
+// c16Literals are string constants: their bytes live in the read-only data of the binary, as the URIs of most
+// callers do (configuration constants). Every enumerated string above is built at run time (heap).
+var c16Literals = []string{
+	"stun:EXAMPLE.ORG:3478",
+	"stun:Example.org",
+	"stuns:Example.ORG:5349",
+	"turn:EXAMPLE.org:3478?transport=tcp",
+	"turn:Example.org?transport=udp",
+	"turns:TURN.Example.Org:443?transport=tcp",
+	"TURN:example.org:3478",
+	"Stun:Example.Org:3478",
+	"stun:[2001:DB8::1]:3478",
+	"stun:[FE80::1%25eth0]:3478",
+	"turn:[2001:DB8::FF]?transport=TCP",
+	"turn:example.org:3478?transport=TCP",
+	"turn:example.org:3478?TRANSPORT=udp",
+	"stun:A:1",
+	"stun:a:1",
+	"stun:example.org:3478",
+	"stun:xn--Bcher-kva.example:3478",
+	"stun:EXAMPLE.ORG:99999",
+	"stun:EXAMPLE.ORG:",
+	"stun:EXAMPLE.ORG:3478?x",
+	"http:EXAMPLE.ORG:80",
+	"stun://EXAMPLE.ORG:3478",
+	"stun:%41BC:3478",
+	"stun:[EXAMPLE]:3478",
+}
+
 // c16Item maps a global item index to the string to parse.
 // Items [0, P*count) are prefix-major exhaustive strings, then the long family.
 func c16Item(i int64, maxLen int) string {
@@ -91,11 +120,20 @@ func c16Item(i int64, maxLen int) string {
 	if p < int64(len(c16Prefixes)) {
 		return c16Prefixes[p] + c16String(i%cnt, maxLen)
 	}
-	return c16Long()[i-cnt*int64(len(c16Prefixes))]
+	long := c16Long()
+	j := i - cnt*int64(len(c16Prefixes))
+	if j < int64(len(long)) {
+		return long[j]
+	}
+	j -= int64(len(long))
+	if j < int64(len(c16Literals)) {
+		return c16Literals[j] // the constant itself
+	}
+	return strings.Clone(c16Literals[j-int64(len(c16Literals))]) // and a heap copy of it
 }
 
 func c16Total(maxLen int) int64 {
-	return c16Count(maxLen)*int64(len(c16Prefixes)) + int64(len(c16Long()))
+	return c16Count(maxLen)*int64(len(c16Prefixes)) + int64(len(c16Long())) + 2*int64(len(c16Literals))
 }
 
 // uriInvariants checks what C16/C17 demand of any single ParseURI result.
@@ -134,7 +172,6 @@ func init() {
 			}
 		}()
 		acc := 0
-		long := c16Long()
 		cnt := c16Count(maxLen)
 		for i := start; i < end; i++ {
 			cur.Store(i)
@@ -146,13 +183,17 @@ func init() {
 			if p := i / cnt; p < int64(len(c16Prefixes)) {
 				s = c16Prefixes[p] + c16String(i%cnt, maxLen)
 			} else {
-				s = long[i-cnt*int64(len(c16Prefixes))]
+				s = c16Item(i, maxLen)
 			}
+			keep := strings.Clone(s)
 			var u *stun.URI
 			var err error
 			if p := catch(func() { u, err = stun.ParseURI(s) }); p != "" {
 				fmt.Fprintf(w, "V %d %s\n", i, p)
 				continue
+			}
+			if s != keep {
+				fmt.Fprintf(w, "V %d the argument string was modified: now %q\n", i, s)
 			}
 			if msg := uriInvariants(s, u, err); msg != "" {
 				fmt.Fprintf(w, "V %d %s\n", i, msg)
@@ -210,8 +251,23 @@ func init() {
 		go func() { time.Sleep(8 * time.Second); fmt.Fprintln(os.Stderr, "HANG"); os.Exit(3) }()
 		var u *stun.URI
 		var err error
+		if strings.HasPrefix(arg, "@") {
+			j, _ := strconv.Atoi(arg[1:])
+			s = strings.Clone(c16Literals[j])
+			keep := strings.Clone(s)
+			if p := catch(func() { _, _ = stun.ParseURI(s) }); p == "" && s != keep {
+				fmt.Printf("V 0 the argument string was modified: now %q\n", s)
+				return
+			}
+			s = c16Literals[j]
+		}
+		keep := strings.Clone(s)
 		if p := catch(func() { u, err = stun.ParseURI(s) }); p != "" {
 			fmt.Printf("V 0 %s\n", p)
+			return
+		}
+		if s != keep {
+			fmt.Printf("V 0 the argument string was modified: now %q\n", s)
 			return
 		}
 		if msg := uriInvariants(s, u, err); msg != "" {
@@ -231,7 +287,13 @@ func c16One(c *Ctx, s string) {
 	tmp.WriteString(s)
 	tmp.Close()
 	exe, _ := os.Executable()
-	cmd := exec.Command(exe, "-child", "c16one:"+tmp.Name())
+	arg := "c16one:" + tmp.Name()
+	for j, l := range c16Literals {
+		if l == s {
+			arg = fmt.Sprintf("c16one:@%d", j) // parse the constant itself, then a heap copy
+		}
+	}
+	cmd := exec.Command(exe, "-child", arg)
 	out, runErr := cmd.CombinedOutput()
 	c.Eval(1)
 	if runErr != nil {
